@@ -142,10 +142,17 @@ def evName : Ev → String
   | .shrink b => s!"shrink {if b then 1 else 0}"
   | .smo i j => s!"smo {i} {j}"
 
+/-- the `m_problem.unshrink()` `QpSolver::solve` performs after its loop, whatever the reason for leaving it (repair of
+F-C07-8); a no-op on a state that is un-shrunk already, but an event of its own -/
+def finalUnshrink (s : St) (acc : Array String) : St × Array String :=
+  let r := onRat s fun r => r.unshrink
+  let s' : St := sync { s with f := compact 0.0 s.f.unshrink, r := r }
+  (s', acc.push (evName Ev.unshrink ++ " " ++ showState floatTok s'.edge s'.f))
+
 /-- run the Float model of `QpSolver::solve`, replay its events on the Rat model -/
 partial def solveLoop (strategy : Nat) (eps : Float) (epsR : Rat) (fuel : Nat) (s : St) (counter it : Nat)
     (acc : Array String) : St × Array String × Bool × Nat :=
-  if fuel == 0 then (s, acc, false, it) else
+  if fuel == 0 then (let p := finalUnshrink s acc; (p.1, p.2, false, it)) else
   let (evs, next) := solveIter strategy eps s.f counter
   let (s, acc) := evs.foldl (fun (p : St × Array String) (ev : Ev × State Float) =>
       let r := onRat p.1 fun r => match ev.1 with
@@ -155,7 +162,7 @@ partial def solveLoop (strategy : Nat) (eps : Float) (epsR : Rat) (fuel : Nat) (
       let s' : St := sync { p.1 with f := compact 0.0 ev.2, r := r }
       (s', p.2.push (evName ev.1 ++ " " ++ showState floatTok s'.edge s'.f))) (s, acc)
   match next with
-  | none => (s, acc, true, it)
+  | none => (let p := finalUnshrink s acc; (p.1, p.2, true, it))
   | some (f', c') => solveLoop strategy eps epsR (fuel - 1) { s with f := compact 0.0 f' } c' (it + 1) acc
 
 section
